@@ -124,6 +124,21 @@ def step (st : St) (line : String) : IO St := do
     let d := (f - m).abs
     let t' := { t with maxF := max t.maxF f.abs, maxDiff := if d > t.maxDiff then d else t.maxDiff, worstPt := if d > t.maxDiff then s!"r={rf} theta={tf} shipped={f} derived={m}" else t.worstPt }
     return { st with t := t' }
+  | "FD" :: p :: g :: a :: b :: rest =>
+    -- translator-independent oracle: nested 4th-order differences of the COMPILED functions against the compiled source term
+    let st ← closeTuple st
+    let key := (toNat! p, toNat! g, toNat! a, toNat! b)
+    let worst := hexF ((kv rest "worst").getD ""); let scale := hexF ((kv rest "scale").getD "")
+    let cls := lookup TestCases.Gen.sourceTerm key
+    let stats ← check st.stats true fun _ => ""
+    let mut st := { st with stats := { stats with cases := stats.cases + 1 } }
+    if !(worst ≤ 1e-4 * (scale + 1e-3)) then
+      let f9 := (cls.splitOn "Poisson_CzarnyGeometry").length > 1
+      let whereAt := s!"max mismatch {worst} at scale {scale} (r={hexF ((kv rest "at_r").getD "")} theta={hexF ((kv rest "at_theta").getD "")} shipped={hexF ((kv rest "shipped").getD "")} finite differences of the compiled exact solution / coefficients / Jacobian={hexF ((kv rest "finite_difference").getD "")}; Rmax={hexF ((kv rest "Rmax").getD "")} kappa/eps={hexF ((kv rest "kappa").getD "")} delta/e={hexF ((kv rest "delta").getD "")})"
+      if f9 then IO.println s!"ORACLE C19 F9 source term {cls} does not equal -div(alpha grad u) + beta u of its exact solution: {whereAt}"
+      else IO.println s!"ORACLE C19 source term {cls} (tuple {key}) does not equal -div(alpha grad u) + beta u of the selected exact solution, coefficients and geometry: {whereAt}"
+      st := { st with oracleFails := st.oracleFails + 1 }
+    return st
   | "NOTUP" :: _ => return st
   | "CULHAM" :: rest =>
     -- Culham: only the consistency of the mapping with its Jacobian is required; theta part exact, r part through the radial tables
